@@ -191,6 +191,7 @@ type State struct {
 	MaxForks      int
 	pcSet         map[int]bool
 	model         map[string]uint64 // an assignment satisfying the current path condition (nil: unknown)
+	panicking     *goPanic          // the Go panic being unwound (for the recover builtin)
 	ForkSites     map[string]int
 	MergeDebug    map[string]int
 	ForcedNamed   map[string]int // values of vp.Choice calls by name (job splitting)
@@ -224,14 +225,15 @@ type State struct {
 }
 
 type frame struct {
-	fn     *ssa.Function
-	fi     *fnInfo
-	env    []Value
-	block  *ssa.BasicBlock
-	prev   *ssa.BasicBlock
-	defers []func()
-	result Value
-	done   bool
+	fn         *ssa.Function
+	fi         *fnInfo
+	env        []Value
+	block      *ssa.BasicBlock
+	prev       *ssa.BasicBlock
+	defers     []func()
+	result     Value
+	done       bool
+	stackDepth int
 	// phis of pendingFor were already evaluated by a merge
 	pendingFor *ssa.BasicBlock
 	pendingPhi []Value
@@ -391,6 +393,7 @@ func (st *State) call(fn *ssa.Function, args []Value, env []Value) Value {
 	fr.block = fn.Blocks[0]
 	st.stack = append(st.stack, fn)
 	depth := len(st.stack)
+	fr.stackDepth = depth
 	st.runFrame(fr, nil)
 	st.stack = st.stack[:depth-1]
 	return fr.result
@@ -402,9 +405,27 @@ func (st *State) runFrame(fr *frame, stop *ssa.BasicBlock) bool {
 	defer func() {
 		if stop == nil {
 			if r := recover(); r != nil {
-				// run deferred calls, then keep unwinding
-				if _, isPanic := r.(goPanic); isPanic && len(fr.defers) > 0 {
+				// run deferred calls (one of them may call recover()), then keep unwinding
+				if gp, isPanic := r.(goPanic); isPanic && len(fr.defers) > 0 && st.journalOn == 0 {
+					saved := st.panicking
+					st.panicking = &gp
 					st.runDefers(fr)
+					if st.panicking == nil {
+						// recovered: the function returns through its Recover block (named results)
+						st.panicking = saved
+						if fr.stackDepth <= len(st.stack) {
+							st.stack = st.stack[:fr.stackDepth]
+						}
+						if fr.fn.Recover != nil {
+							fr.block, fr.prev, fr.done = fr.fn.Recover, nil, false
+							fr.pendingFor, fr.pendingPhi = nil, nil
+							st.runFrame(fr, nil)
+						} else {
+							fr.result, fr.done = zeroResults(fr.fn), true
+						}
+						return
+					}
+					st.panicking = saved
 				}
 				panic(r)
 			}
@@ -419,6 +440,21 @@ func (st *State) runFrame(fr *frame, stop *ssa.BasicBlock) bool {
 		}
 		st.execBlock(fr)
 	}
+}
+
+func zeroResults(fn *ssa.Function) Value {
+	res := fn.Signature.Results()
+	switch res.Len() {
+	case 0:
+		return nil
+	case 1:
+		return zero(res.At(0).Type())
+	}
+	t := make(Tuple, res.Len())
+	for i := range t {
+		t[i] = zero(res.At(i).Type())
+	}
+	return t
 }
 
 func (st *State) runDefers(fr *frame) {
